@@ -276,12 +276,50 @@ func runScript(id string, c *config, fixed []string, next func(sc *scr, step int
 				g := goroutines()
 				res = fmt.Sprintf("pending=%d blocked=%d", sc.sched.VPending(), g.senders)
 				release()
+			case 'Q':
+				// mixed queue at shutdown: run() is stuck at a slot mutex with one lock in hand, the locks with an even
+				// index are in the channel, then Close(); run() must still drain the channel; later UnLocks are dropped
+				var todo []int
+				for i := range sc.status {
+					if sc.status[i] == 'B' && sc.ret[i].Load() && i%2 == 0 && len(todo) < 100 {
+						todo = append(todo, i)
+					}
+				}
+				release := sc.lat.VHoldSlots()
+				var done atomic.Int64
+				for _, i := range todo {
+					sc.locks[i].SetCommitTS(c.txns[i].commit)
+					sc.status[i] = 'U'
+					go unlockWorker(sc, i, &done)
+				}
+				deadline := time.Now().Add(60 * time.Second)
+				for int(done.Load()) != len(todo) && time.Now().Before(deadline) {
+					time.Sleep(50 * time.Microsecond)
+				}
+				// every sender is done (none blocked: they all fit), so Close() does not wait for a reader lock
+				pend := sc.sched.VPending()
+				sc.sched.Close()
+				sc.closed = true
+				res = fmt.Sprintf("pending=%d closed", pend)
+				release()
 			}
 		}()
 		if q := sc.quiesce(); q != "" {
 			fmt.Fprintf(out, "P\tno_deadlock\t%s\t%s\t%s\t%s\n", id, c.spec(), strings.Join(actions, " "), "real scheduler: "+q)
 			nfail++
 			break
+		}
+		if a[0] == 'Q' || a[0] == 'M' {
+			// oracle on the implementation: every lock whose UnLock was accepted (before Close) has been released
+			for i := range sc.status {
+				if sc.status[i] == 'U' && sc.locks[i] != nil && sc.locks[i].VAcquired() != 0 && !(sc.closed && a[0] != 'Q') {
+					fmt.Fprintf(out, "P\tno_deadlock\t%s\t%s\t%s\t%s\n", id, c.spec(), strings.Join(actions, " "),
+						fmt.Sprintf("lock %d was sent to the scheduler before Close() but is still not released at quiescence", i))
+					nfail++
+					break
+				}
+			}
+			totals.npass["sent_before_close_released"]++
 		}
 		if a[0] == 'L' {
 			i, _ := strconv.Atoi(a[1:])
@@ -381,6 +419,20 @@ func schedMain(seed int64, thorough bool) {
 		acts = append(acts, "M")
 		c := &config{size: 2, pat: pat, txns: tx}
 		runScript(fmt.Sprintf("cap-%d", nt), c, acts, nil)
+	}
+	// Close() with a non-empty channel: 60 locks, the even ones queued behind a stuck run(), Close, drain; two odd ones
+	// unlocked afterwards (dropped: their latches stay held)
+	{
+		var tx []txn
+		var pat []int
+		var acts []string
+		for t := 0; t < 60; t++ {
+			tx = append(tx, txn{[]int{t}, uint64(10 + t), uint64(500 + t)})
+			pat = append(pat, t%2)
+			acts = append(acts, "L"+strconv.Itoa(t))
+		}
+		acts = append(acts, "Q", "U1", "U3")
+		runScript("capx-60", &config{size: 2, pat: pat, txns: tx}, acts, nil)
 	}
 	summary()
 }
